@@ -1,4 +1,4 @@
-\* exhaustive (quick): 3 temperatures, 6 kind pairs x 1 construction, every behaviour of up to 3 calls
+\* exhaustive (quick): 3 temperatures, 4 kind pairs (those not in the quick emission run) x 1 construction, every behaviour of up to 3 calls
 CONSTANTS NT = 3  NV = 1  MaxLevel = 3
   KindChoices <- McKindsQuick  TempChoices <- McTempsOne  LinkPairs <- McLinks  RampSteps <- McRamp
 INIT Init
